@@ -43,7 +43,9 @@ theorem cog13_mass (p : Cog13.P) (r t : ℝ) (hr : 0 < r) (ht : 0 < t) :
   epv_hydro_rw_derivs [Cog13.L1.density_hasDerivAt_t p r t, Cog13.L1.density_hasDerivAt_r p r t,
     Cog13.L1.velocity_hasDerivAt_r p r t]
   simp only [epv_deriv, epv_leaf]
-  epv_hydro_field_simp
+  have hr' := hr.ne'
+  have ht' := ht.ne'
+  field_simp
   ring
 
 theorem cog13_momentum (p : Cog13.P) (r t : ℝ) (hr : 0 < r) (ht : 0 < t) (hρ : p.rho0 ≠ 0)
@@ -53,7 +55,11 @@ theorem cog13_momentum (p : Cog13.P) (r t : ℝ) (hr : 0 < r) (ht : 0 < t) (hρ 
   epv_hydro_rw_derivs [Cog13.L1.velocity_hasDerivAt_t p r t, Cog13.L1.velocity_hasDerivAt_r p r t,
     Cog13.L1.density_hasDerivAt_r p r t, Cog13.L1.temperature_hasDerivAt_r p r t]
   simp only [epv_deriv, epv_leaf]
-  epv_hydro_field_simp
+  have h1 := Real.rpow_pos_of_pos hr ((2 : ℝ) / ((p.alpha - p.beta) - 4))
+  have h2 := Real.rpow_pos_of_pos ht (((-((2 : ℝ) / ((p.alpha - p.beta) - 4))) - (p.geometry - 1)) - 1)
+  have hr' := hr.ne'
+  have ht' := ht.ne'
+  field_simp
   ring
 
 /-- the energy residual of the coded solution in closed form -/
